@@ -12,7 +12,7 @@ import (
 )
 
 func init() {
-	Registry["C02"] = Check{Level: "model_checking", Run: runC02, Replay: replayC02}
+	Registry["C02"] = Check{GC: 25, Level: "model_checking", Run: runC02, Replay: replayC02}
 }
 
 // rawDiff lists the exported fields in which the two interpreters differ.
